@@ -714,6 +714,18 @@ func (e *Env) call(n *Node, hint *Sym) *Sym {
 			cs = append(cs, mkRaw(fmt.Sprintf("(forall ((r!e Int)) (! (=> (<= r!e ctr0) (= (select %s r!e) (select %s r!e))) :pattern ((select %s r!e))))", cur.S, old.S, cur.S), SBool))
 		}
 		return scalar(types.Typ[types.Bool], mkAnd(cs...))
+	case "contents":
+		// contents(s): the backing array of slice s as a mathematical array (single-leaf element types);
+		// element i of s is contents(s)[offof(s) + i]
+		v := e.eval(n.Args[0], nil)
+		if v.T == nil || kindOf(v.T) != KSlice {
+			panic("contents of a non-slice")
+		}
+		fs := familiesOf(RElem, v.T.Underlying().(*types.Slice).Elem())
+		if len(fs) != 1 {
+			panic("contents: element type must be a single scalar")
+		}
+		return &Sym{L: []*Term{mkSelect(e.x.hp.heapGet(e.st, fs[0]), v.L[0])}}
 	case "only_elems_changed":
 		// only_elems_changed(s, "Field"[, n]): between the old state and now, the field Field of the
 		// struct type pointed to by the elements of slice s changed only in objects that some element
